@@ -439,7 +439,19 @@ func ruleParsedTypesRegistered(c *core.Ctx, rule string) {
 	n := 0
 	isTypeSet := func(t types.Type) bool { return core.TypeIs(t, "meta/signature", "TypeSet") }
 	for _, fn := range srcFuncsOfPkg(c, "meta/idl") {
-		if fn.Parent() != nil || hasErrorResult(fn.Signature) < 0 || core.ParamOfType(fn, isTypeSet) == nil {
+		// the function holds the type set: as a parameter, or in a small struct parameter
+		// that bundles it with the writer (idlOutput{writer, set})
+		holdsSet := core.ParamOfType(fn, isTypeSet) != nil
+		for _, p := range fn.Params {
+			if st, ok := p.Type().Underlying().(*types.Struct); ok {
+				for i := 0; i < st.NumFields(); i++ {
+					if isTypeSet(st.Field(i).Type()) {
+						holdsSet = true
+					}
+				}
+			}
+		}
+		if fn.Parent() != nil || hasErrorResult(fn.Signature) < 0 || !holdsSet {
 			continue
 		}
 		k := 0
